@@ -253,7 +253,7 @@ func Run(c *core.Ctx, replay string) (*core.Result, error) {
 		}
 		for k := 0; k < cliN && k < len(items); k++ {
 			var runs []RunObs
-			for r := 0; r < 4; r++ {
+			for r := 0; r < 8; r++ { // (a two-way order dependence survives r runs with probability 2^(1-r))
 				hs, err := cliRun(c, bin, items[k], r)
 				if err != nil {
 					return nil, err
@@ -326,7 +326,7 @@ func Run(c *core.Ctx, replay string) (*core.Result, error) {
 	res.Evaluations = comparisons
 	res.TracesVsImpl = len(recs)
 	res.Nontrivial = len(recs)
-	res.Rule = fmt.Sprintf("%d seeded random full-feature packages (>=3 imported packages per Go header, unions, several Dart files, a table struct) x 8 generator entry points + analysis, each repeated %d times in one process (fresh analysis) in each of %d processes, plus cmd/gomacro -config end to end four times on %d programs (two source files of one package); one record per (program, target); evaluations = repetitions compared", len(items), rounds, procs, cliN)
+	res.Rule = fmt.Sprintf("%d seeded random full-feature packages (>=3 imported packages per Go header, unions, several Dart files, a table struct) x 8 generator entry points + analysis, each repeated %d times in one process (fresh analysis) in each of %d processes, plus cmd/gomacro -config end to end eight times on %d programs (two source files of one package); one record per (program, target); evaluations = repetitions compared", len(items), rounds, procs, cliN)
 	res.Extra = map[string]any{"rounds_per_process": rounds, "processes": procs}
 	for i, r := range recs {
 		if i%17 == 0 {
